@@ -350,3 +350,26 @@ PLANS["C18"] = {
         "assumptions": COMMON_ASSUME,
     },
 }
+
+PLANS["C19"] = {
+    "k": [
+        K("c19::minmax", crate="avk-rayon", timeout=900, note="Min/Max by value and by reference: up to 4 items over {-inf,-1,-0.0,0,1,2.5,+inf,NaN}, 3 pieces with symbolic cuts, "
+                                                              "both bracketings, identity insertions at every node: exactly the sequential extreme"),
+        K("c19::mean_len", crate="avk-rayon", timeout=900, note="Mean: len() == number of items for every schedule; empty input gives an empty estimator; f64 and &f64 items"),
+        K("c19::variance_len", crate="avk-rayon", timeout=1200, note="Variance"),
+        K("c19::skewness_len", crate="avk-rayon", timeout=1800, note="Skewness"),
+        K("c19::mean_two_items", crate="avk-rayon", timeout=1200, note="two items: parallel mean inside [min,max] bit-precisely, for every schedule"),
+        K("c19::kurtosis_len", crate="avk-rayon", tier="thorough", timeout=3600, note="Kurtosis"),
+        K("c19::moments4_len", crate="avk-rayon", tier="thorough", timeout=3600, note="Moments4"),
+        K("c19::moments5_len", crate="avk-rayon", tier="thorough", timeout=3600, note="define_moments!(M5, 5)"),
+    ],
+    "meta": {
+        "functions_encoded": ["impl_from_par_iterator! expansions (FromParallelIterator<f64> and <&f64>) for Mean, Variance, Skewness, Kurtosis, Min, Max, Moments4, M5",
+                              "rayon-stub::{ParallelIterator::fold, Folded::reduce, collect}", "the estimators' add / merge / new"],
+        "bounds": ["<= 4 items, 3 contiguous pieces with symbolic cut points (empty pieces included), both bracketings, identity merged in on either side at every node"],
+        "outside_bounds": ["real thread pools, work stealing, with_min_len/with_max_len: Kani does not model threads; rayon's conformance to its fold/reduce contract is trusted",
+                           "statistics within the envelope: inherited from C02 (every merge tree the stub can generate is one C02 quantifies over)"],
+        "stubs_and_assumes": ["rayon replaced by /verif/kani/rayon-stub via [patch.crates-io]: schedule choices are symbolic bytes"],
+        "assumptions": COMMON_ASSUME,
+    },
+}
